@@ -5,13 +5,13 @@
    srv/SrvC08b.v (stop once, status, WaitStatus after the handlers), srv/SrvC08c.v (cancellation, retained
    notifications, restart), srv/SrvC08q.v (quiescence, termination), srv/SrvC08u.v (unblocking channels), srv/SrvC08r.v (drained notifications),
    srv/SrvC08x.v (scenarios), srv/SrvC08y.v (the flags of ServerStatus) srv/SrvC08n.v (notifications handled)
-   and srv/SrvC08w.v (callback watchers).
+   srv/SrvC08w.v (callback watchers) and srv/SrvC08v.v (restart after WaitStatus).
    All statements quantify over ALL configurations, ALL reachable states (reach = window boundaries, reachf =
    every intermediate state too) and ALL traces; there are no bounds.
    OWaitRet carries an [option stopcause]: "at most one flag" holds by type. *)
 From Coq Require Import List NArith ZArith Bool Arith Lia.
 From RecordUpdate Require Import RecordUpdate.
-From JV Require Import Bytes Msg SrvModel SrvLemmas SrvBasics SrvC10 SrvC08 SrvC08b SrvC08c SrvC08q SrvC08r SrvC08s SrvC08u SrvC08y SrvC08n SrvC08w.
+From JV Require Import Bytes Msg SrvModel SrvLemmas SrvBasics SrvC10 SrvC08 SrvC08b SrvC08c SrvC08q SrvC08r SrvC08s SrvC08u SrvC08y SrvC08n SrvC08w SrvC08v.
 Import ListNotations.
 
 (** 1. No interleaving makes the process panic: none of the model's crash outcomes (CrNilChannel = deliver
@@ -392,3 +392,22 @@ Print Assumptions c08_fresh_fields_spec.
 Theorem c08_restart_reachable : forall c s, reach c s -> wg s = 0 -> running s = false -> reach c (started s).
 Proof. exact restart_reachable. Qed.
 Print Assumptions c08_restart_reachable.
+
+(* "after WaitStatus returns the same server can be started": the window in which a WaitStatus call returns ends in
+   a state in which everything has finished, from which Start is enabled, produces no observation and yields the
+   fresh fields; the restarted state is reachable (so every theorem applies to it) ... *)
+Theorem c08_restart_after_wait : forall c s l s' os r, reach c s -> step s l = Some (s', os) -> In (OWaitRet r) os ->
+  r = stop_err s' /\ all_done s' /\ reach c s' /\
+  step s' LStart = Some (started s', []) /\ fresh_fields c (started s') /\ reach c (started s') /\
+  tasks (started s') = tasks s' /\ units (started s') = units s' /\ cbs (started s') = cbs s' /\
+  starts (started s') = S (starts s') /\ closes (started s') = closes s'.
+Proof. exact restart_after_wait. Qed.
+Print Assumptions c08_restart_after_wait.
+
+(* ... and Start stays enabled, with the same outcome, whatever else happens before it is taken *)
+Theorem c08_restart_after_wait_trace : forall c s l s1 os r tr s2 oss, reach c s -> step s l = Some (s1, os) ->
+  In (OWaitRet r) os -> run s1 tr = Some (s2, oss) -> ~ In LStart tr ->
+  step s2 LStart = Some (started s2, []) /\ fresh_fields c (started s2) /\ reach c (started s2) /\
+  tasks (started s2) = tasks s1 /\ units (started s2) = units s1.
+Proof. exact restart_after_wait_trace. Qed.
+Print Assumptions c08_restart_after_wait_trace.
